@@ -14,6 +14,9 @@ use crate::verdicts::*;
 pub const F_CHOICE: &str = "C01-map-group-choice-commits-to-nullable-alternative";
 pub const F_MIN2: &str = "C01-map-single-key-member-min-occurrence-above-one-accepted";
 pub const F_GREEDY: &str = "C01-map-type-keyed-member-greedily-takes-key-of-later-member";
+pub const F_OCCGROUP: &str = "C01-map-occurrence-on-a-group-is-not-enforced";
+pub const F_MIXED: &str = "C01-json-integer-read-as-float-only-where-it-helps";
+pub const F_OPTGROUP: &str = "C01-map-optional-group-whose-value-fails-is-an-error";
 
 fn grule<'a>(s: &'a Schema, n: &str) -> Option<&'a Entry> {
   s.0.iter().find_map(|r| match &r.body {
@@ -116,6 +119,10 @@ fn any_map_group(s: &Schema, p: &dyn Fn(&Grp) -> bool) -> bool {
   });
   found
 }
+/// type-keyed directly or as the only content of an inline group
+fn type_keyed_deep(e: &Entry) -> bool {
+  type_keyed(e) || matches!(&e.kind, EK::Inline(g) if g.0.iter().any(|alt| alt.iter().any(type_keyed_deep)))
+}
 fn type_keyed(e: &Entry) -> bool {
   matches!(&e.kind, EK::Val(Some(Key::Arrow(k, _)), _) if !(k.op.is_none() && matches!(k.t2, T2::Lit(_))))
 }
@@ -152,13 +159,35 @@ pub fn classify_json(c: &Case) -> Option<String> {
   // type-keyed members, a first alternative that matches but leaves keys over).
   if (c.expected, c.got) == (Tri::Acc, &Obs::Invalid) {
     let k = crate::core::statelist::key(&[c.text, &crate::docs::to_json_text(c.doc)]);
-    if any_map_group(c.schema, &|g: &Grp| g.0.iter().any(|alt| alt.len() >= 2 && alt.iter().any(type_keyed)))
+    if any_map_group(c.schema, &|g: &Grp| g.0.iter().any(|alt| alt.len() >= 2 && alt.iter().any(type_keyed_deep)))
       && crate::core::statelist::listed(F_GREEDY, k)
     {
       return Some(F_GREEDY.into());
     }
     if any_map_group(c.schema, &|g: &Grp| g.0.len() >= 2) && crate::core::statelist::listed(F_CHOICE, k) {
       return Some(F_CHOICE.into());
+    }
+    // an optional / repeated group (inline or by reference) before another member: when the group's key is present
+    // but its value does not match, the group should simply not apply; the validator reports the mismatch instead
+    if any_map_group(c.schema, &|g: &Grp| g.0.iter().any(|alt| alt.iter().any(|e| matches!(e.kind, EK::Inline(_) | EK::Ref(..)) && occ_nullable(&e.occ))))
+      && crate::core::statelist::listed(F_OPTGROUP, k)
+    {
+      return Some(F_OPTGROUP.into());
+    }
+  }
+  if (c.expected, c.got) == (Tri::Rej, &Obs::Ok) {
+    // an occurrence indicator on a group entry of a map (inline group or group reference) is not enforced: '*1 (tstr => any)'
+    // takes two members, '1*2 gk, tstr => any' lets the table reuse gk's key
+    let k = crate::core::statelist::key(&[c.text, &crate::docs::to_json_text(c.doc)]);
+    if any_map_group(c.schema, &|g: &Grp| g.0.iter().any(|alt| alt.iter().any(|e| matches!(e.kind, EK::Inline(_) | EK::Ref(..)) && e.occ != Occ::One)))
+      && crate::core::statelist::listed(F_OCCGROUP, k)
+    {
+      return Some(F_OCCGROUP.into());
+    }
+    // a JSON integer is not a float for 'float' (an optional float entry is skipped) and at the same time inside a float
+    // range for the next entry: neither reading of the number makes the array match
+    if c.text.contains("..") && c.text.contains('.') && crate::core::statelist::listed(F_MIXED, k) {
+      return Some(F_MIXED.into());
     }
   }
   None
